@@ -13,7 +13,7 @@ import KafkaVerif.Model.ReaderFront
 import KafkaVerif.Gen.DecoderFacts
 import KafkaVerif.Lemmas.ReaderFront
 import KafkaVerif.Lemmas.ByteLayout
-import KafkaVerif.Lemmas.ReaderRun
+import KafkaVerif.Lemmas.ReaderLoopLTS
 import KafkaVerif.Lemmas.PullReader
 import KafkaVerif.Lemmas.ReaderWorld
 import KafkaVerif.Lemmas.ReaderSystem
@@ -61,7 +61,7 @@ theorem decoder_statements :
     Gen.decoderFacts.skipBelow = "$r.conn != nil && $1 < $r.connOffset()" ∧
     Gen.decoderFacts.emptyWhenHwmEqOffset = true ∧ Gen.decoderFacts.closeStoresOffset = true := by decide
 
-/-- the facts of `(*reader).run` / `initialize` the loop LTS (Model/ReaderRun.lean) transcribes: the sentinel values,
+/-- the facts of `(*reader).run` / `initialize` the loop LTS (Model/ReaderLoopLTS.lean) transcribes: the sentinel values,
 the resolution switch and the seek to the resolved offset, `attempt = 0; offset = start` after a successful initialize,
 `errcount++` at the end of an iteration, and the action of every simple error class of readLoop's switch
 (continue with errcount 0 / close and leave the loop / close and return / sendError and leave the loop) -/
@@ -374,7 +374,7 @@ theorem out_of_range_counterexample :
     onAnswer .legacy { offset := 105, connOpen := true, connOff := 105 } 115 110 115 (.err 1)
       = .go { offset := 110, connOpen := true, connOff := 105 } := by rfl
 
-/-! ### the whole reconnect / backoff loop (Model/ReaderRun.lean: `rstep`, a total LTS)
+/-! ### the whole reconnect / backoff loop (Model/ReaderLoopLTS.lean: `rstep`, a total LTS)
 
 Events are the outcomes of the blocking calls of `(*reader).run`: the backoff sleeps (done / context cancelled),
 `initialize` (failed — dial, readOffsets, or Seek out of range — or succeeded with the partition's first/last offsets),
